@@ -659,6 +659,19 @@ func TestC11(t *testing.T) {
 			c.Fail(ev.Sig{"op": "bubble-leak"}, nil, nil, "goroutines left blocked after the scenario: %s", leak)
 		}
 	})
+	// the random multisets also draw application ids far from the dictionary's: supported ids
+	// plus multiples of 2^30 / 2^31, the largest non-relay id
+	alX := append(append([]appAVP{}, al...),
+		appAVP{"Auth(2^30+4)", func() *refcodec.Node { return peer.U32(peer.AuthApp, 1<<30+4) }, ids(1<<30+4, "auth")},
+		appAVP{"Auth(2^31+16777251)", func() *refcodec.Node { return peer.U32(peer.AuthApp, 1<<31+16777251) }, ids(1<<31+16777251, "auth")},
+		appAVP{"Acct(3*2^30+3)", func() *refcodec.Node { return peer.U32(peer.AcctApp, 3<<30+3) }, ids(3<<30+3, "acct")},
+		appAVP{"Auth(2^30)", func() *refcodec.Node { return peer.U32(peer.AuthApp, 1<<30) }, ids(1<<30, "auth")},
+		appAVP{"Auth(2^32-2)", func() *refcodec.Node { return peer.U32(peer.AuthApp, 0xFFFFFFFE) }, ids(0xFFFFFFFE, "auth")},
+		appAVP{"VS{v,Auth(2^31+4)}", func() *refcodec.Node {
+			return peer.Group(peer.VSApp, peer.U32(peer.VendorID, 10415), peer.U32(peer.AuthApp, 1<<31+4))
+		}, ids(1<<31+4, "auth")},
+	)
+	al = alX
 	rec.Suite("random", rec.N(2000, 1000000), func(c *ev.Case) {
 		r := c.R
 		cc := c11Case{host: r.IntN(8) != 0, realm: r.IntN(8) != 0, inband: r.IntN(4) - 1, nAddrs: r.IntN(3), ipv6: r.IntN(2) == 0, zeroIDs: r.IntN(4) == 0}
